@@ -39,6 +39,7 @@ POOL = [  # (key used in ops, schema name, version or None = unversioned access 
     ("material", "example.matsci.material", (0, 1, 0)),
     ("person", "core.person", (0, 1, 0)),
     ("alpha", "verif.alpha", (1, 0, 0)),  # child of verif.base 1.1.0 whose name sorts before the parent's
+    ("caps", "verifcaps.thing", (1, 0, 0)),  # provided by a distribution named 'Verif_Caps'
 ]
 INVALID = [("aux", "verif.aux", (1, 0, 0)), ("unknown", "verif.nope", None), ("unknownv", "verif.base", (3, 0, 0))]
 
